@@ -106,6 +106,17 @@ class World:
         kw['trusted'] = True
         return self.contract(*a, **kw)
 
+    def define(self, name, params, text):
+        """Named specification macro: ``name(args)`` expands to ``text`` with params bound (current state)."""
+        def expand(it, *args):
+            sub = it.sub_interp(dict(zip(params, args)))
+            sub.spec = True
+            sub.old_env, sub.old_heap, sub.old_globals = it.old_env, it.old_heap, it.old_globals
+            sub.old_alloc = getattr(it, 'old_alloc', None)
+            sub.result, sub.exc = it.result, it.exc
+            return sub.eval_text(text)
+        self.spec_funcs[name] = expand
+
     def ghost_var(self, name, kind, init=None):
         self.ghost[name] = (kind, init)
 
